@@ -244,11 +244,12 @@ def projection_facts(rows_t, cols_t, dtypes_t, names_t):
     pos = lambda q: L_index(LV, cols_t, L_get(LV, names_t, q))
     return [z3.And(L_len(ROWS, nrows) == n, L_len(LV, ndt) == k),
             z3.ForAll([j], z3.Implies(z3.And(j >= 0, j < n), L_len(LV, L_get(ROWS, nrows, j)) == k),
-                      patterns=[L_get(ROWS, nrows, j)]),
+                      patterns=[L_get(ROWS, nrows, j), L_get(ROWS, rows_t, j)]),
             z3.ForAll([j, c], z3.Implies(z3.And(j >= 0, j < n, c >= 0, c < k),
                                          L_get(LV, L_get(ROWS, nrows, j), c) ==
                                          L_get(LV, L_get(ROWS, rows_t, j), pos(c))),
-                      patterns=[L_get(LV, L_get(ROWS, nrows, j), c)]),
+                      patterns=[L_get(LV, L_get(ROWS, nrows, j), c),
+                                z3.MultiPattern(L_get(ROWS, rows_t, j), L_get(LV, names_t, c))]),
             z3.ForAll([c], z3.Implies(z3.And(c >= 0, c < k), L_get(LV, ndt, c) == L_get(LV, dtypes_t, pos(c))),
                       patterns=[L_get(LV, ndt, c)])]
 
